@@ -104,3 +104,47 @@ Example C20_ex_accepted_trace :
    EvRequest MwAccessLogCtx; EvRequest MwServerIdEnv; EvRequest MwCompression; EvAuthCall; EvRequest MwAuth;
    EvRequest MwSticky; EvRequest MwPkce; EvRequest MwCapabilities; EvDispatch].
 Proof. vm_compute; reflexivity. Qed.
+
+(* ---- the authenticator as composed by make_wsgi_app (PKCE cookie member), request histories ---- *)
+(* every callback invocation made for a request asks about that request: its own Authorization value or
+   "Bearer <its _vgi_auth cookie>", together with the unchanged rest of the request / the present moment *)
+Theorem C20_auth_calls_about_this_request : forall (R : Type) pkce (cb : callback R) c rest a v,
+  In (a, v) (auth_calls pkce cb c rest) -> In a (presentations pkce c) /\ v = cb a rest.
+Proof. exact auth_calls_sound. Qed.
+Print Assumptions C20_auth_calls_about_this_request.
+
+(* outside the four classes a request is dispatched only if the operator callback, asked during THIS request about
+   THIS request, accepted: no verdict is carried over from another request *)
+Theorem C20_dispatch_needs_fresh_verdict : forall (R : Type) e stops (cb : callback R) c rest prefix meth path,
+  e AAuth = true -> ~ allowed e prefix meth path ->
+  In EvDispatch (handle_cb e stops cb c rest prefix meth path) ->
+  exists a, In a (presentations (pkce_on e) c) /\ cb a rest = VAccept.
+Proof. exact dispatch_needs_fresh_verdict. Qed.
+Print Assumptions C20_dispatch_needs_fresh_verdict.
+
+(* ... for every step of every history, whatever the callback answered at other steps *)
+Theorem C20_history_fresh_verdict : forall (R : Type) e stops prefix (h : list (step R)),
+  e AAuth = true ->
+  Forall (fun s => let '(cb, c, rest, meth, path) := s in
+                   ~ allowed e prefix meth path ->
+                   In EvDispatch (handle_cb e stops cb c rest prefix meth path) ->
+                   exists a, In a (presentations (pkce_on e) c) /\ cb a rest = VAccept) h.
+Proof. exact history_fresh_verdict. Qed.
+Print Assumptions C20_history_fresh_verdict.
+
+(* non-vacuity: the good cookie is accepted while the token is live and refused after revocation; flags/prefix as above *)
+Definition ex_pkce_flags := (true, true, true, true, false).
+Example C20_ex_cookie_live :
+  run_step (ex_pkce_flags, s_vgi, s_POST, s_vgi ++ [47; 102], (true, false, false, false), (0, 1)) = (2, false, true).
+Proof. vm_compute; reflexivity. Qed.
+Example C20_ex_cookie_revoked :
+  run_step (ex_pkce_flags, s_vgi, s_POST, s_vgi ++ [47; 102], (false, false, false, false), (0, 1)) = (2, true, false).
+Proof. vm_compute; reflexivity. Qed.
+(* the edge header is required and missing: refused although the token is live *)
+Example C20_ex_cookie_no_edge :
+  run_step (ex_pkce_flags, s_vgi, s_POST, s_vgi ++ [47; 102], (true, true, false, false), (0, 1)) = (2, true, false).
+Proof. vm_compute; reflexivity. Qed.
+(* a PermissionError from the header member ends the chain: the cookie member is not asked *)
+Example C20_ex_perm_stops_chain :
+  run_step (ex_pkce_flags, s_vgi, s_POST, s_vgi ++ [47; 102], (true, false, true, false), (2, 1)) = (1, true, false).
+Proof. vm_compute; reflexivity. Qed.
